@@ -274,12 +274,15 @@ pub fn eval_ew<F: FnMut(&GraphColoredVertices, &str)>(
     self_loop_states: &GraphColoredVertices,
     progress_callback: &mut F,
 ) -> GraphColoredVertices {
+    // E[phi1 W phi2] == not A[(not phi2) U (not phi1 & not phi2)]
+    let not_phi2 = eval_neg(graph, phi2);
+    let not_both = eval_neg(graph, phi1).intersect(&not_phi2);
     eval_neg(
         graph,
         &eval_au(
             graph,
-            &eval_neg(graph, phi1),
-            &eval_neg(graph, phi2),
+            &not_phi2,
+            &not_both,
             self_loop_states,
             progress_callback,
         ),
@@ -293,13 +296,11 @@ pub fn eval_aw<F: FnMut(&GraphColoredVertices, &str)>(
     phi2: &GraphColoredVertices,
     progress_callback: &mut F,
 ) -> GraphColoredVertices {
+    // A[phi1 W phi2] == not E[(not phi2) U (not phi1 & not phi2)]
+    let not_phi2 = eval_neg(graph, phi2);
+    let not_both = eval_neg(graph, phi1).intersect(&not_phi2);
     eval_neg(
         graph,
-        &eval_eu_saturated(
-            graph,
-            &eval_neg(graph, phi1),
-            &eval_neg(graph, phi2),
-            progress_callback,
-        ),
+        &eval_eu_saturated(graph, &not_phi2, &not_both, progress_callback),
     )
 }
